@@ -65,6 +65,15 @@ def run(run):
                     if fn in files:
                         continue
                     files[fn] = rand_text(rng) if rng.random() < 0.8 else "/**\n * @id x\n */\nFROM method_declaration AS md\nSELECT md.getName(), \"<&>\"\n"
+                # equal contents under different names (a rule copied under a second name, two empty files): the
+                # property speaks of the *multiset* of rule texts
+                if case % 2 == 0:
+                    cqls = [fn for fn in files if fn.endswith(".cql")]
+                    for j in range(rng.randint(1, 3)):
+                        src_text = files[rng.choice(cqls)] if cqls and rng.random() < 0.7 else rng.choice(["", "", rand_text(rng, 3)])
+                        files["dup%d_%s.cql" % (j, rng.choice(["a", "é", "x y"]))] = src_text
+                        files["dup%d_b.cql" % j] = src_text
+                        stats["duplicate_content_pairs"] += 1
                 for fn, text in files.items():
                     with open(os.path.join(rdir, fn), "wb") as f:
                         f.write(text.encode("utf-8"))
